@@ -25,7 +25,8 @@ STACKS = [
     ("rs3/ss3", [{}, {"m": "new"}]), ("rs4/ss4", [{}, {"m": "inv", "a": 2}]),
     ("rs0/szs0", [{}, {"m": "new"}]), ("rs1/szs1", [{}, {"m": "inv", "a": 1}]), ("rs2/szs2", [{}, {"m": "new"}]),
     ("rs3/szs3", [{}, {"m": "new"}]), ("rs4/szs4", [{}, {"m": "new"}]),
-    ("rs1/ss1/szs1", [{}, {"m": "new"}, {"m": "new"}]), ("r9/sa/sza", [{}, {"m": "inv", "a": 2, "b": 0}, {"m": "inv", "a": 13, "b": 1}]),
+    ("rs1/ss1/szs1", [{}, {"m": "new"}, {"m": "new"}]),
+    ("anb/sac1_1", []), ("anb/sac6_2", []), ("anb/sac8_1", []), ("anb/szac6_2", []), ("anb/szac8_1", []), ("r9/sa/sza", [{}, {"m": "inv", "a": 2, "b": 0}, {"m": "inv", "a": 13, "b": 1}]),
 ]
 
 
@@ -126,7 +127,8 @@ def ops_for(r, n, runs):
 # (vector index in vectors(), stack index in STACKS): the combinations that reach the code that only exists for
 # vectors beyond 2^32 bits (64-bit spans that are not the first entry, inventory entries next to an upper block)
 ESSENTIAL = [(-3, 7), (-3, 8), (-3, 11), (-2, 18), (-2, 21), (-2, 24), (-1, 19), (-1, 22), (1, 7), (2, 18), (0, 0), (0, 3),
-             (0, 6), (3, 22), (3, 14), (5, 2), (6, 23), (2, 28), (-3, 29), (-2, 20), (-1, 25)]
+             (0, 6), (3, 22), (3, 14), (5, 2), (6, 23), (2, 28), (-3, 34), (-2, 20), (-1, 25), (-3, 29), (-3, 30), (-3, 31),
+             (1, 29), (1, 33)]
 # (dense vector index, stack index)
 DENSE = [(0, 18), (0, 21), (0, 1), (1, 19), (1, 9), (1, 24), (2, 20), (2, 13), (3, 22), (3, 6), (0, 16), (1, 4), (2, 0), (3, 27)]
 
